@@ -26,6 +26,7 @@ func checkC19(r *Run) propMeta {
 		r.Fatal("load: %v", err)
 	}
 	p := r.MustPkg("retriever")
+	retrieverPkg = p
 	cg := BuildCallGraph(r, func(path string) bool { return strings.HasSuffix(path, "/retriever") })
 	decls := FuncDecls(p)
 	dump := cg.Func(modPath + "/retriever.Dump")
@@ -94,7 +95,7 @@ func checkC19(r *Run) propMeta {
 	checkPersistLast(r, p, decls)
 	checkReaderOptionsConsumedOnce(r, p)
 	checkPersistCallbackContract(r, p)
-	if dg := decls["dumpGraph"]; dg != nil {
+	if dg := decls[roleName("dumpGraph")]; dg != nil {
 		checkCommitCallbacks(r, p, dg)
 	} else {
 		r.Undecide("C19-R3: dumpGraph not found")
@@ -252,7 +253,7 @@ func checkFlushClosure(r *Run, p *packages.Package, fd *ast.FuncDecl) {
 		if fl, ok := n.(*ast.FuncLit); ok && flush == nil {
 			if stmtHasCallShallow(fl.Body, func(c *ast.CallExpr) bool {
 				f := calleeOf(info, c)
-				return f != nil && f.Name() == "closeFragmentWriter"
+				return f != nil && f.Name() == roleName("closeFragmentWriter")
 			}) {
 				flush = fl
 			}
@@ -269,7 +270,7 @@ func checkFlushClosure(r *Run, p *packages.Package, fd *ast.FuncDecl) {
 	for i, st := range flush.Body.List {
 		if idxPublish < 0 && stmtHasCallShallow(st, func(c *ast.CallExpr) bool {
 			f := calleeOf(info, c)
-			return f != nil && f.Name() == "closeFragmentWriter"
+			return f != nil && f.Name() == roleName("closeFragmentWriter")
 		}) {
 			idxPublish = i
 		}
@@ -384,7 +385,7 @@ func checkCommitCallbacks(r *Run, p *packages.Package, fd *ast.FuncDecl) {
 	for li, fl := range lits {
 		n++
 		construct := owners[li] + ":commit#" + itoa(n)
-		if owners[li] == "dumpGraph" {
+		if owners[li] == roleName("dumpGraph") {
 			construct = "dumpGraph:commit#" + itoa(n)
 		}
 		idxAppend, idxPersist := -1, -1
@@ -436,7 +437,7 @@ func checkManifestLast(r *Run, p *packages.Package, cg *CallGraph, decls map[str
 	info := p.TypesInfo
 	dump := decls["Dump"]
 	// callers of writeManifest among functions reachable from Dump
-	wm := cg.Func(modPath + "/retriever.writeManifest")
+	wm := cg.Func(modPath+"/retriever."+roleName("writeManifest"))
 	if wm == nil || dump == nil {
 		r.Undecide("C19-R4: writeManifest / Dump not found")
 		return
@@ -454,14 +455,14 @@ func checkManifestLast(r *Run, p *packages.Package, cg *CallGraph, decls map[str
 		if fs, ok := st.(*ast.ForStmt); ok {
 			if stmtHasCall(fs.Body, func(c *ast.CallExpr) bool {
 				f := calleeOf(info, c)
-				return f != nil && f.Name() == "dumpGraph"
+				return f != nil && f.Name() == roleName("dumpGraph")
 			}) {
 				idxLoop = i
 			}
 		}
 		if stmtHasCallShallow(st, func(c *ast.CallExpr) bool {
 			f := calleeOf(info, c)
-			return f != nil && f.Name() == "writeManifest"
+			return f != nil && f.Name() == roleName("writeManifest")
 		}) {
 			if idxManifest >= 0 {
 				idxManifest = -2
@@ -471,7 +472,7 @@ func checkManifestLast(r *Run, p *packages.Package, cg *CallGraph, decls map[str
 		}
 		if stmtHasCallShallow(st, func(c *ast.CallExpr) bool {
 			f := calleeOf(info, c)
-			return f != nil && f.Name() == "removeDumpCheckpoint"
+			return f != nil && f.Name() == roleName("removeDumpCheckpoint")
 		}) && idxRemove < 0 {
 			idxRemove = i
 		}
@@ -479,7 +480,7 @@ func checkManifestLast(r *Run, p *packages.Package, cg *CallGraph, decls map[str
 	gated := false
 	if idxManifest >= 0 {
 		for _, g := range gatesOf(p, dump.Body.List) {
-			if g.Callee == "writeManifest" && g.Returns {
+			if g.Callee == roleName("writeManifest") && g.Returns {
 				gated = true
 			}
 		}
@@ -498,7 +499,7 @@ func checkManifestLast(r *Run, p *packages.Package, cg *CallGraph, decls map[str
 
 func checkResumeGate(r *Run, p *packages.Package, cg *CallGraph, decls map[string]*ast.FuncDecl) {
 	info := p.TypesInfo
-	fd := decls["loadCompatibleDumpCheckpoint"]
+	fd := decls[roleName("loadCompatibleDumpCheckpoint")]
 	if fd == nil {
 		r.Undecide("C19-R5: loadCompatibleDumpCheckpoint not found")
 		return
@@ -598,16 +599,19 @@ func checkResumeGate(r *Run, p *packages.Package, cg *CallGraph, decls map[strin
 			r.Fail("C19-R5-resume-gate", "loadCompatibleDumpCheckpoint:"+role.name, fd.Pos(), "the resume loader can return success without passing %s: a resume then continues from an unvalidated checkpoint", role.name)
 		}
 	}
-	// manifest-absent check: first statement is `if _, err := os.Stat(<manifest>); err == nil { return error }`
-	manifestAbsent := false
-	if ifs, ok := list[0].(*ast.IfStmt); ok {
-		if as, ok := ifs.Init.(*ast.AssignStmt); ok && len(as.Rhs) == 1 {
-			if c, ok := as.Rhs[0].(*ast.CallExpr); ok {
-				if f := calleeOf(info, c); f != nil && (funcFullName(f) == "os.Stat" || funcFullName(f) == "os.Lstat") && strings.Contains(exprString(r.Fset, c), "manifestFileName") {
-					if be, ok := ast.Unparen(ifs.Cond).(*ast.BinaryExpr); ok && be.Op == token.EQL && isNilIdent(info, be.Y) {
-						for _, b := range ifs.Body.List {
-							if rs, ok := b.(*ast.ReturnStmt); ok && len(rs.Results) == 2 && !isNilIdent(info, rs.Results[1]) {
-								manifestAbsent = true
+	// manifest-absent check: the loader's first statement refuses when os.Stat(<manifest>) succeeds — written in place
+	// (`if _, err := os.Stat(…); err == nil { return error }`) or as an error-gated call of a helper that does it
+	manifestAbsent := refusesExistingManifest(p, fd.Body, list[0])
+	if !manifestAbsent {
+		if ifs, ok := list[0].(*ast.IfStmt); ok {
+			if as, ok := ifs.Init.(*ast.AssignStmt); ok && len(as.Rhs) == 1 {
+				if c, ok := as.Rhs[0].(*ast.CallExpr); ok {
+					if f := calleeOf(info, c); f != nil && f.Pkg() == p.Types {
+						if hd := decls[declKeyOf(f)]; hd != nil && hd.Body != nil {
+							for _, g := range gates {
+								if g.Index == 0 && g.Returns && g.Call == c {
+									manifestAbsent = refusesExistingManifest(p, hd.Body, hd.Body)
+								}
 							}
 						}
 					}
@@ -624,7 +628,20 @@ func checkResumeGate(r *Run, p *packages.Package, cg *CallGraph, decls map[strin
 	identity := false
 	for _, st := range list {
 		if ifs, ok := st.(*ast.IfStmt); ok {
-			txt := exprString(r.Fset, ifs.Cond)
+			// `!reflect.DeepEqual(x.Identity, expected)`, possibly through a local that names the comparison
+			cond := ifs.Cond
+			if u, ok := ast.Unparen(cond).(*ast.UnaryExpr); ok && u.Op == token.NOT {
+				if id, ok := ast.Unparen(u.X).(*ast.Ident); ok {
+					if as, ok := ifs.Init.(*ast.AssignStmt); ok && len(as.Lhs) == 1 && len(as.Rhs) == 1 {
+						if lid, ok := as.Lhs[0].(*ast.Ident); ok && info.Defs[lid] == info.Uses[id] {
+							cond = &ast.UnaryExpr{OpPos: u.OpPos, Op: token.NOT, X: as.Rhs[0]}
+						}
+					} else {
+						cond = &ast.UnaryExpr{OpPos: u.OpPos, Op: token.NOT, X: resolveLocalCopy(info, fd.Body, id)}
+					}
+				}
+			}
+			txt := exprString(r.Fset, cond)
 			if strings.Contains(txt, "DeepEqual") && strings.Contains(txt, "Identity") && strings.HasPrefix(strings.TrimSpace(txt), "!") {
 				for _, b := range ifs.Body.List {
 					if rs, ok := b.(*ast.ReturnStmt); ok && len(rs.Results) == 2 && !isNilIdent(info, rs.Results[1]) {
@@ -640,10 +657,10 @@ func checkResumeGate(r *Run, p *packages.Package, cg *CallGraph, decls map[strin
 		r.Fail("C19-R5-resume-gate", "loadCompatibleDumpCheckpoint:identity", fd.Pos(), "the resume loader does not refuse a checkpoint written with different options")
 	}
 	// the only readers of the checkpoint file
-	rd := cg.Func(modPath + "/retriever.readDumpCheckpoint")
+	rd := cg.Func(modPath+"/retriever."+roleName("readDumpCheckpoint"))
 	if rd != nil {
 		for _, e := range cg.In[rd] {
-			if e.From.Name() == "loadCompatibleDumpCheckpoint" {
+			if e.From.Name() == roleName("loadCompatibleDumpCheckpoint") {
 				r.Pass("C19-R5-resume-gate", "readDumpCheckpoint<-"+e.From.Name(), e.Pos, "checkpoint is read only through the validating loader")
 			} else {
 				r.Fail("C19-R5-resume-gate", "readDumpCheckpoint<-"+e.From.Name(), e.Pos, "%s reads the checkpoint without the validating loader", e.From.Name())
@@ -660,7 +677,7 @@ func checkResumeGate(r *Run, p *packages.Package, cg *CallGraph, decls map[strin
 			}
 			calls := stmtHasCall(ifs.Body, func(c *ast.CallExpr) bool {
 				f := calleeOf(info, c)
-				return f != nil && f.Name() == "loadCompatibleDumpCheckpoint"
+				return f != nil && f.Name() == roleName("loadCompatibleDumpCheckpoint")
 			})
 			returnsOnErr := false
 			for _, st := range ifs.Body.List {
@@ -687,7 +704,7 @@ func checkResumeGate(r *Run, p *packages.Package, cg *CallGraph, decls map[strin
 
 func checkIdentityCompleteness(r *Run, p *packages.Package, decls map[string]*ast.FuncDecl) {
 	tbl := r.LoadTable("c19_identity_exempt")
-	fd := decls["newDumpCheckpointIdentity"]
+	fd := decls[roleName("newDumpCheckpointIdentity")]
 	tn, _ := p.Types.Scope().Lookup("DumpOptions").(*types.TypeName)
 	if fd == nil || tn == nil {
 		r.Undecide("C19-R6: newDumpCheckpointIdentity / DumpOptions not found")
@@ -769,7 +786,7 @@ func checkCursorBeforeCommit(r *Run, p *packages.Package, fd *ast.FuncDecl) {
 		}
 		if !stmtHasCallShallow(fl.Body, func(c *ast.CallExpr) bool {
 			f := calleeOf(info, c)
-			return f != nil && f.Name() == "closeFragmentWriter"
+			return f != nil && f.Name() == roleName("closeFragmentWriter")
 		}) {
 			return true
 		}
@@ -899,7 +916,7 @@ func checkBlankedFieldReads(r *Run, p *packages.Package, decls map[string]*ast.F
 			return true
 		})
 	}
-	visit(decls["newDumpCheckpointIdentity"])
+	visit(decls[roleName("newDumpCheckpointIdentity")])
 	var fds []*ast.FuncDecl
 	for fd := range closure {
 		fds = append(fds, fd)
@@ -1015,7 +1032,7 @@ func checkPersistLast(r *Run, p *packages.Package, decls map[string]*ast.FuncDec
 		if body != nil && loop == nil {
 			if stmtHasCall(body, func(c *ast.CallExpr) bool {
 				f := calleeOf(info, c)
-				return f != nil && f.Name() == "writeDumpCheckpoint"
+				return f != nil && f.Name() == roleName("writeDumpCheckpoint")
 			}) {
 				loop = &loopStmt{body}
 			}
@@ -1032,7 +1049,7 @@ func checkPersistLast(r *Run, p *packages.Package, decls map[string]*ast.FuncDec
 	for i, st := range loop.Body.List {
 		ast.Inspect(st, func(n ast.Node) bool {
 			if c, ok := n.(*ast.CallExpr); ok {
-				if f := calleeOf(info, c); f != nil && f.Name() == "writeDumpCheckpoint" && len(c.Args) >= 2 {
+				if f := calleeOf(info, c); f != nil && f.Name() == roleName("writeDumpCheckpoint") && len(c.Args) >= 2 {
 					last = i
 					if id, ok := ast.Unparen(c.Args[1]).(*ast.Ident); ok {
 						cp = info.Uses[id]
@@ -1123,4 +1140,65 @@ func cellOf(info *types.Info, e ast.Expr) *types.Var {
 		}
 	}
 	return nil
+}
+
+// refusesExistingManifest: within scope (a statement or a body of fnBody's function) there is an os.Stat / os.Lstat of
+// the manifest path (the constant "manifest.json" appears in the argument) and a return of a non-nil error that is
+// controlled by "that call's error is nil".
+func refusesExistingManifest(p *packages.Package, fnBody *ast.BlockStmt, scope ast.Node) bool {
+	info := p.TypesInfo
+	norm := &ast.BlockStmt{List: switchToIfChain(fnBody.List)}
+	inScope := func(n ast.Node) bool {
+		if scope == ast.Node(fnBody) {
+			return true
+		}
+		return n.Pos() >= scope.Pos() && n.End() <= scope.End()
+	}
+	var errObj types.Object
+	ast.Inspect(norm, func(n ast.Node) bool {
+		as, ok := n.(*ast.AssignStmt)
+		if !ok || len(as.Rhs) != 1 || len(as.Lhs) != 2 || !inScope(as) {
+			return true
+		}
+		c, ok := ast.Unparen(as.Rhs[0]).(*ast.CallExpr)
+		if !ok {
+			return true
+		}
+		f := calleeOf(info, c)
+		if f == nil || (funcFullName(f) != "os.Stat" && funcFullName(f) != "os.Lstat") || !hasStringConst(info, c, "manifest.json") {
+			return true
+		}
+		if id, ok := as.Lhs[1].(*ast.Ident); ok {
+			errObj = info.Defs[id]
+			if errObj == nil {
+				errObj = info.Uses[id]
+			}
+		}
+		return true
+	})
+	if errObj == nil {
+		return false
+	}
+	refuses := false
+	ast.Inspect(norm, func(n ast.Node) bool {
+		rs, ok := n.(*ast.ReturnStmt)
+		if !ok || len(rs.Results) == 0 || isNilIdent(info, rs.Results[len(rs.Results)-1]) || !inScope(rs) {
+			return true
+		}
+		for _, l := range controlConds(norm, rs) {
+			be, ok := ast.Unparen(l.Expr).(*ast.BinaryExpr)
+			if !ok || !isNilIdent(info, be.Y) {
+				continue
+			}
+			id, ok := ast.Unparen(be.X).(*ast.Ident)
+			if !ok || info.Uses[id] != errObj {
+				continue
+			}
+			if (be.Op == token.EQL && !l.Neg) || (be.Op == token.NEQ && l.Neg) {
+				refuses = true
+			}
+		}
+		return true
+	})
+	return refuses
 }
